@@ -25,7 +25,7 @@ RULE = ('precedence: for each of 12 keys (9 documented, 3 unknown) a seeded choi
         'or a prefix matched; distinct by canonical case')
 ASSUMPTIONS = ['prefix items are non-empty and contain no comma', 'equality of poll cadence is judged in logical terms '
                '(timer thread alive and >= 3 polls within a generous watchdog), not by wall-clock period']
-REQUIRE = {'two_start_sessions': 3, 'precedence_reads': 400, 'behaviour_sessions': 20, 'classifications': 5000, 'prefix_matched': 1500,
+REQUIRE = {'two_start_sessions': 3, 'function_settings_read_twice': 4, 'precedence_reads': 400, 'behaviour_sessions': 20, 'classifications': 5000, 'prefix_matched': 1500,
            'exclusion_won': 200, 'reclassified_snapshots': 40}
 SHARD_TIMEOUT = {'quick': 400, 'thorough': 2400}
 
@@ -58,7 +58,7 @@ def case_precedence(seed, out, spec):
         if cv == 'value':
             code[k] = {'v': 'code-%s' % k.lower()}
         elif cv == 'callable':
-            code[k] = {'call': 'called-%s' % k.lower(), 'how': r.pick(['lambda', 'partial', 'method', 'object'])}
+            code[k] = {'call': 'called-%s' % k.lower(), 'how': r.pick(['lambda', 'partial', 'method', 'object', 'counter'])}
         elif cv == 'none':
             code[k] = {'v': None}
         elif cv == 'falsy':
@@ -67,7 +67,8 @@ def case_precedence(seed, out, spec):
         if cv in ('value', 'falsy'):
             expect[k] = code[k]['v']
         elif cv == 'callable':
-            expect[k] = code[k]['call']
+            # (a function is asked every time the setting is read: 'counter' answers differently each time)
+            expect[k] = code[k]['call'] + ('#1' if code[k]['how'] == 'counter' else '')
         elif k in DOCUMENTED:
             # environment-backed default: module reads DEEP_<KEY> at import, else the documented default
             if k in ('APP_ROOT', 'PLUGINS'):
@@ -95,6 +96,15 @@ def case_precedence(seed, out, spec):
                 k, got, expect[k], code.get(k), env.get('DEEP_' + k)), witness, replay)
             return
         out.count('precedence_reads')
+        if code.get(k, {}).get('how') == 'counter':
+            again = res['again'].get(k)
+            if again != code[k]['call'] + '#2':
+                out.violation('precedence:function-not-asked-again', 'config.%s is given as a function that answers %r then '
+                                                                     '%r; the second read gave %r' % (
+                                                                         k, expect[k], code[k]['call'] + '#2', again),
+                              witness, replay)
+                return
+            out.count('function_settings_read_twice')
         if k in code and ('DEEP_' + k) in env:
             competed = True
     out.case({'env': env, 'code': code}, nontrivial=competed,
@@ -122,6 +132,13 @@ def _callable(x, how):
         return _Provider(x).get
     if how == 'object':
         return _Provider(x)
+    if how == 'counter':
+        n = [0]
+
+        def counting():
+            n[0] += 1
+            return '%s#%d' % (x, n[0])
+        return counting
     return lambda: x
 
 
@@ -140,7 +157,14 @@ def child_precedence(arg):
             values[k] = getattr(cfg, k)
         except BaseException as e:  # noqa
             values[k] = {'raised': repr(e)}
-    return {'values': values}
+    again = {}
+    for k, v in arg['code'].items():
+        if v.get('how') == 'counter':
+            try:
+                again[k] = getattr(cfg, k)
+            except BaseException as e:  # noqa
+                again[k] = {'raised': repr(e)}
+    return {'values': values, 'again': again}
 
 
 # ---------------------------------------------------------------- (b) behaviour
@@ -153,11 +177,12 @@ def case_behaviour(seed, out, spec):
     idx = int(str(seed).split(':')[-1])
     setting = SETTINGS[idx % len(SETTINGS)]
     variant = r.randrange(3)
+    variant5 = [3, 4, 0, 1, 2][(idx // len(SETTINGS)) % 5]
     replay = replay_spec(spec, seed)
     results = {}
     for form in ('code', 'env'):
-        res = e2e.call_child('vf.props.c19', 'child_behaviour', {'setting': setting, 'form': form, 'variant': variant},
-                             timeout=90)
+        res = e2e.call_child('vf.props.c19', 'child_behaviour', {'setting': setting, 'form': form, 'variant': variant,
+                                                                 'variant5': variant5}, timeout=90)
         if res.get('inconclusive'):
             out.inconc('C19 behaviour %s/%s: %s' % (setting, form, res['inconclusive']))
             return
@@ -304,7 +329,9 @@ def child_behaviour(arg):
             give(key, text)
         code['APP_ROOT'] = verif_dir if 'EXCLUDE' in key else '/nonexistent/root'
     elif setting == 'APP_ROOT':
-        give('APP_ROOT', [target_dir, verif_dir, '/nonexistent/root'][variant])
+        # (also spelled with a trailing slash, or not normalised: text is taken as it is given, in both forms)
+        give('APP_ROOT', [target_dir, verif_dir, '/nonexistent/root', target_dir + '/',
+                          os.path.dirname(target_dir) + '/./' + os.path.basename(target_dir)][arg.get('variant5', variant)])
     os.environ.update(env)
     import deep
     from vf.targets import e2e_target
@@ -410,6 +437,12 @@ def case_classify(seed, out, spec):
         got_app, match = ConfigService(custom).is_app_frame(path)
     except BaseException as e:  # noqa
         out.violation('classify:raised', 'is_app_frame(%r) raised %r' % (path, e), witness, replay)
+        return
+    if form == 'list' and (custom['IN_APP_INCLUDE'] != inc or custom['IN_APP_EXCLUDE'] != exc):
+        out.violation('classify:caller-list-changed', 'classifying a file changed the lists given in code: include %r '
+                                                      '(was %r), exclude %r (was %r)' % (
+                                                          custom['IN_APP_INCLUDE'], inc, custom['IN_APP_EXCLUDE'], exc),
+                      witness, replay)
         return
     got_short = path[len(match):] if match is not None else path
     if bool(got_app) != app:
